@@ -253,7 +253,7 @@ class Ledger(metaclass=LedgerRegistry):
         return self.db.get_address_count(**constraints)
 
     async def get_spendable_utxos(self, amount: int, funding_accounts: Optional[Iterable['Account']], min_amount=1):
-        min_amount = min(amount // 10, min_amount)
+        min_amount = min(max(amount // 10, 1), min_amount)
         fee = Output.pay_pubkey_hash(COIN, NULL_HASH32).get_fee(self)
         selector = CoinSelector(amount, fee)
         async with self._utxo_reservation_lock:
